@@ -24,7 +24,7 @@ from mc.props._solve_common import DT, EPS, shp, bcast_shape
 ID = "C01"
 LEVEL = "exploration"
 DESIGN_REF = "DESIGN.md §5 C01"
-RULE = ("case = one point of the union of eight complete sub-lattices (op / batch / opt / rhs / slice / reject / scale / "
+RULE = ("case = one point of the union of nine complete sub-lattices (op / batch / opt / rhs / slice / reject / scale / mix / "
         "f32, see module docstring) over operator kind (17) x method (7) x {no E, E, E+M, M only} x E dtype x "
         "spectrum class (SPD, indefinite Hermitian, non-normal non-Hermitian) x n x ncols x batch shapes of "
         "(A, B, E, M) x dtype x (tolerance, posdef, max_niter, resid_calc_every | Broyden maxiter, line_search, "
@@ -230,16 +230,20 @@ def _plane_opt(tier):
 
 def _plane_rhs(tier):
     out = []
-    pats = BATCH3 if tier == "quick" else BATCH5
+    # E / M carrying a batch dimension that neither A nor B has: the shape of the result of the B == 0 shortcut
+    extra = [("", "", "2", ""), ("", "", "", "2"), ("2", "", "3,1", "3,1")]
+    pats = (BATCH3 if tier == "quick" else BATCH5) + extra
     kinds = ["dense", "mv"] if tier == "quick" else ["dense", "mv", "mv_h", "add", "jac_lin"]
     for dtype in ["f64", "c128"]:
         for bk in ["zero", "zerocol", "unit"]:
             for kind in kinds:
-                for (em, ed) in emodes_for(dtype):
+                for (em, ed) in emodes_for(dtype, with_m_only=True):
                     if ed == "real" and dtype == "c128":
                         continue
                     for pat in pats:
                         if not kind_ok(kind, "spd", dtype, pat[0]):
+                            continue
+                        if em == "M" and pat not in extra:
                             continue
                         for method in METHODS:
                             out.append(mk(plane="rhs", method=method, opkind=kind, E=em, Edtype=ed, dtype=dtype,
@@ -323,10 +327,39 @@ def _plane_scale(tier):
     return out
 
 
+def _plane_mix(tier):
+    """two systems of very different conditioning and right-hand-side norm in ONE call (two batch elements, or two
+    columns with different shifts): every column / batch element has to meet ITS OWN stopping test.
+    batch: A[k] + 100 I (kappa ~ 1.3) with B[k] * 1e4, the other element kappa = 30 with |b| ~ 1;
+    col:   E[k] = -100 (system A + 100 M) with column k of B * 1e4, the other column unshifted"""
+    out = []
+    kinds = ["dense_auto", "mv"] if tier == "quick" else ["dense_auto", "mv", "mvrmv", "add"]
+    for dtype in ["f64", "c128"]:
+        for spec in SPECS:
+            for kind in kinds:
+                if not kind_ok(kind, spec, dtype, "2"):
+                    continue
+                for mix in ("batch", "batchrev", "col", "colrev"):
+                    ems = [("none", "-"), ("E", "real"), ("EM", "real")] if mix.startswith("batch") else \
+                          [("E", "real"), ("EM", "real")]
+                    for (em, ed) in ems:
+                        if dtype == "c128":
+                            ed = "complex" if em != "none" else "-"
+                        for tol in (["rel"] if tier == "quick" else ["rel", "std"]):
+                            for method in ("exactsolve", "cg", "bicgstab", "gmres"):
+                                pat = ("2", "2", "", "") if mix.startswith("batch") else ("", "", "", "")
+                                c = mk(plane="mix", method=method, opkind=kind, E=em, Edtype=ed, dtype=dtype,
+                                       spec=spec, n=24, ncols=2, kappa=30.0, tol=tol, **_pat(em, pat))
+                                c["mix"] = mix
+                                out.append(c)
+    return out
+
+
 def cases(tier, seed):
     vseeds = [0] if tier == "quick" else [0] + [int(seed) * 1000 + k for k in (1, 2, 3)]
     out = []
     out += _plane_scale(tier)
+    out += _plane_mix(tier)
     out += _plane_reject(tier)
     out += _plane_op(tier, vseeds)
     out += _plane_batch(tier)
@@ -335,7 +368,7 @@ def cases(tier, seed):
     out += _plane_slice(tier)
     out += _plane_f32(tier)
     # canonical order: simplest first (stable sort on a few size keys)
-    order = {"reject": 0, "op": 1, "batch": 2, "rhs": 3, "slice": 4, "f32": 5, "opt": 6, "scale": 7}
+    order = {"reject": 0, "op": 1, "batch": 2, "rhs": 3, "slice": 4, "f32": 5, "opt": 6, "scale": 7, "mix": 8}
     out.sort(key=lambda c: (order[c["plane"]], c["vseed"] != 0, c["n"] * c["ncols"]))
     return out
 
@@ -389,6 +422,22 @@ def build_case(cfg):
                         cfg["kappa"], cfg["vseed"], cfg["B"])
     if em == "M":
         p["E"] = None
+    mix = cfg.get("mix")
+    if mix:
+        k = 1 if mix.endswith("rev") else 0
+        eye = torch.eye(cfg["n"], dtype=dt)
+        Bm = p["B"].clone()
+        if mix.startswith("batch"):
+            Am = p["A"].clone()
+            Am[k] = Am[k] + 100.0 * eye
+            p["A"] = Am
+            Bm[k] = Bm[k] * 1e4
+        else:
+            Em = torch.zeros_like(p["E"])
+            Em[..., k] = -100.0
+            p["E"] = Em
+            Bm[..., :, k] = Bm[..., :, k] * 1e4
+        p["B"] = Bm
     s = cfg.get("scale")
     if s is not None:
         p["A"] = p["A"] * s
